@@ -2,6 +2,7 @@ package stanza
 
 import (
 	"encoding/xml"
+	"errors"
 	"strconv"
 	"strings"
 )
@@ -83,6 +84,11 @@ func (x Err) MarshalXML(e *xml.Encoder, start xml.StartElement) (err error) {
 		return nil
 	}
 
+	// The condition is written as an element name: it must be one
+	if x.Reason != "" && !isConditionName(x.Reason) {
+		return errors.New("invalid error condition name: " + strconv.Quote(x.Reason))
+	}
+
 	// Encode start element and attributes
 	start.Name = xml.Name{Local: "error"}
 
@@ -137,4 +143,18 @@ func (x Err) MarshalXML(e *xml.Encoder, start xml.StartElement) (err error) {
 	}
 
 	return e.EncodeToken(xml.EndElement{Name: start.Name})
+}
+
+// isConditionName tells if s can be used as the name of an error condition element
+// (RFC 6120 conditions and application specific ones are plain ASCII names).
+func isConditionName(s string) bool {
+	for i, c := range s {
+		switch {
+		case c >= 'a' && c <= 'z', c >= 'A' && c <= 'Z', c == '_':
+		case i > 0 && (c >= '0' && c <= '9' || c == '-' || c == '.'):
+		default:
+			return false
+		}
+	}
+	return s != ""
 }
